@@ -82,7 +82,7 @@ SPEC = dict(
     module="C15Gen",
     link="coq/link/C15Link.v",
     imports=["From QV Require Import Jssp.DomainWall Translate.C15Aux."],
-    coq_deps=["theories/Jssp/DomainWall_proofs.vo", "theories/Jssp/Encoder.vo", "theories/Translate/C15Aux.vo"],
+    coq_deps=["theories/Jssp/DomainWall_proofs.vo", "theories/Jssp/Encoder.vo", "theories/Jssp/Encoder_proofs.vo", "theories/Translate/C15Aux.vo"],
     reserved=["job", "operation", "instance", "schedule", "value", "values", "enc", "var_nq", "v", "st"],
     attrs={**DW_ATTRS, **INSTANCE_ATTRS},
     consts={"SparsePauliOp": ("tt", OPCLASS)},
@@ -137,5 +137,7 @@ SPEC = dict(
              params=PAIR, state=ENC_STATE, returns=OP, locals={"local_terms": List(OP)}),
         dict(py="JSSPDomainWallHamiltonianEncoder._operation_overlap_term", source=ENC_SRC, gen="Enc_overlap_term",
              params=PAIR, state=ENC_STATE, returns=OP, locals={"local_terms": List(OP)}),
+        dict(py="JSSPDomainWallHamiltonianEncoder._early_start_term", source=ENC_SRC, gen="Enc_early_start_term",
+             params=[], state=ENC_STATE, returns=OP, locals={"local_terms": List(OP)}),
     ],
 )
